@@ -218,8 +218,8 @@ _MORE = {
     "C11": "executor(T).setup(); selections by overlapping string tags; build clause across nested DAG boundaries (6 refused + 2 accepted shapes).",
     "C12": "every multi-alias selection with the alias lists in both orders.",
     "C13": "cache_deps_of executors for every node under every debug placement; flags of inner DAGs called without positional arguments; debug nodes with setup parents that have not run.",
-    "C14": "failing methods / operator nodes / partials / lambdas (call location); exception objects as return values under every resource; the program's own error ending the call before a node failure is observed is accepted.",
-    "C15": "executor creation / compose failing inside a history are violations (not harness errors).",
+    "C14": "failing methods / operator nodes / partials / lambdas (call location); exception objects as return values under every resource; the program's own error ending the call before a node failure is observed is accepted; a node raising with an explicit cause of its own; a failing await next to a sibling await; a failing node after a reconfiguration.",
+    "C15": "executor creation / compose failing inside a history are violations (not harness errors); an executor with target AND exclusion that is only created; the priority rule after reconfigurations; two / three overlapping awaits of one AsyncDAG object (A || (B ; C)).",
     "C16": "decorated methods across threads; rendezvous of two calls; first calls of a DAG with pending setup nodes from two threads; two pooled calls; failing nested builds; every module-level lock of tawazi owned by the baton scheduler.",
     "C17": "histories of awaits on one AsyncDAG object (HIST oracle); driver serves only running nodes and reports starvation; internal errors of the async flavour.",
     "C18": "keyword / indexed / flag dependencies in the round trips; defaulted argument not repeated at restart; executor constructed before the file is (re)written.",
